@@ -946,6 +946,10 @@ func sweepOneCase(t *rapid.T, r *evid.Recorder, c opCase) {
 // TestReplay re-runs the oracle on a saved case: the single recorded fault if there is one,
 // otherwise the whole sweep of that case.
 func TestReplay(t *testing.T) {
+	if strings.Contains(evid.ReplayTest(), "TestCLIWrites") {
+		replayCLI(t)
+		return
+	}
 	if evid.ReplayTest() != "" && !strings.Contains(evid.ReplayTest(), "TestFaultSweep") {
 		replayAtomic(t)
 		return
